@@ -159,6 +159,12 @@ TStep ==
              /\ ((EnfVAL /\ EnfProp \in {"*", e.prop} /\ InDomain(e, heap) /\ Decidable(e, heap)) =>
                    ChkS(tr, l + 1, e.prop \o " " \o e.act \o ": result differs from the specified result",
                         ResultDiff(e, heap, g)))
+             \* C06: the coordinate variables of the (left) operand are coordinate
+             \* variables of the result too - a further operator or mask() on the
+             \* result passes them through again
+             /\ ((EnfVAL /\ EnfProp \in {"*", e.prop} /\ e.act \in {"arith", "mask"} /\ InDomain(e, heap)) =>
+                   ChkT(tr, l + 1, "C06 " \o e.act \o ": the result does not list the coordinate variables of its (left) operand",
+                        {k \in SeqSet(heap[e.src].coords) : HasVar(g, k)} \subseteq SeqSet(g.coords)))
      /\ (l + 1 = Len(tr.steps) => TrAccept(tr))
 
 TSpec == TInit /\ [][TStep]_tvars
